@@ -18,10 +18,16 @@ def _mk_scenarios(tier):
         sc.append(('predict', dict(wa=wa)))
         for m in ((0, 2) if tier == 'quick' else (0, 1, 3)):
             sc.append(('set_pva', dict(m=m, wa=wa)))
+        for grp in ('rph', 'lla', 'vel'):
+            sc.append(('set_pva', dict(m=2, wa=wa, same=grp)))
         sc.append(('constructor', dict(wa=wa)))
         for m1, m2 in (((1, 1), (0, 2), (2, 1)) if tier == 'quick' else ((1, 1), (0, 2), (2, 1), (2, 2), (3, 0), (1, 3))):
             sc.append(('split', dict(m1=m1, m2=m2, wa=wa)))
     ops = ['i0', 'i1', 'i2', 'p', 's']
+    # 'r': set_pva with roll/pitch/heading bit-identical to the initially supplied attitude
+    for seq in (('i1', 'r', 'i1'), ('i2', 'r', 'p', 'i1'), ('i1', 's', 'i1', 'r', 'i2'), ('r', 'i2')):
+        for wa in (True, False):
+            sc.append(('history', dict(seq=seq, wa=wa)))
     L = 2 if tier == 'quick' else 3
     for k in range(1, L + 1):
         for seq in itertools.product(ops, repeat=k):
@@ -121,14 +127,17 @@ class Scenario:
         self.invariant(it, self.n + 1, cells)
         return {'new_cap': it.lla.cap}
 
-    def sc_set_pva(self, m, wa):
+    def sc_set_pva(self, m, wa, same=None):
         ig, h = self.integ, self.h
         it = h.state(self.n, self.cap, wa)
-        p = ig.Pva('P')
+        # `same`: the named column group of the new state is bit-identical to the state the
+        # integrator was constructed with
+        mkp = lambda: ig.Pva('P', same_as={same: 'Pinit'} if same else None)
+        p = mkp()
         it.set_pva(p)
         ig.must(ig.iz(it.trajectory.n) == ig.iz(self.n), 'row_count', 'set_pva changes the row count')
         self.h.SD.Integrator.INITIAL_SIZE = self.isz
-        fresh = self.h.SD.Integrator(ig.Pva('P'), wa)
+        fresh = self.h.SD.Integrator(mkp(), wa)
         self.check('set_pva overwrites the latest trajectory row with the first row of a fresh integrator',
                    it.trajectory.tail.rows[-1] is fresh.trajectory.tail.rows[0])
         self.check('set_pva does not modify its argument', p.vd0 is False)
@@ -201,11 +210,12 @@ class Scenario:
                 pr = it.predict(ch.row(0))
                 _c, rows = self.fold(cells, ch, wa)
                 self.check('history: predict = next appended row', ig._key(pr) is rows[0])
-            elif o == 's':
+            elif o in ('s', 'r'):
                 npv += 1
-                p = ig.Pva('P%d' % npv)
+                mkp = lambda: ig.Pva('P%d' % npv, same_as={'rph': 'P0'} if o == 'r' else None)
+                p = mkp()
                 it.set_pva(p)
-                fresh = h.SD.Integrator(ig.Pva('P%d' % npv), wa)
+                fresh = h.SD.Integrator(mkp(), wa)
                 cells_f = h.latest_cells(fresh)
                 self.check('history: state after set_pva = fresh integrator state', h.latest_cells(it) == cells_f)
                 cells = h.latest_cells(it)
@@ -256,7 +266,7 @@ class Scenario:
     def _model(self, ex):
         import z3
         small = z3.And(self.zvars['n'] <= 40, self.zvars['cap'] <= 80)
-        m = ex.model_for(small) or ex.model_for()
+        m = ex.model_for(z3.And(small, self.zvars['n'] >= 3)) or ex.model_for(small) or ex.model_for()
         if m is None:
             return None
         return {k: m.eval(v, model_completion=True).as_long() for k, v in self.zvars.items()}
@@ -432,11 +442,16 @@ def _increments(n, seed=1):
                         columns=['dt', 'theta_x', 'theta_y', 'theta_z', 'dv_x', 'dv_y', 'dv_z'])
 
 
-def _pva(k, t):
+def _pva(k, t, same=None):
+    """k-th supplied state; `same`: column group bit-identical to the initial state (k = 0)"""
     import pandas as pd
     from pyins.util import TRAJECTORY_COLS
-    return pd.Series([55.0 + k, 37.0 - k, 150.0 + 10 * k, 3.0 + k, -2.0, 0.7 + 0.3 * k, 2.0 * k, -3.0, 45.0 + 20 * k],
-                     index=TRAJECTORY_COLS, name=t)
+    v = [55.0 + k, 37.0 - k, 150.0 + 10 * k, 3.0 + k, -2.0, 0.7 + 0.3 * k, 2.0 * k, -3.0, 45.0 + 20 * k]
+    v0 = [55.0, 37.0, 150.0, 3.0, -2.0, 0.7, 0.0, -3.0, 45.0]
+    sl = {'lla': slice(0, 3), 'vel': slice(3, 6), 'rph': slice(6, 9)}.get(same)
+    if sl is not None:
+        v[sl] = v0[sl]
+    return pd.Series(v, index=TRAJECTORY_COLS, name=t)
 
 
 def _same(a, b):
@@ -508,7 +523,7 @@ def _replay(spec):
         elif kind == 'set_pva':
             m = max(m, 2)       # the stored state is only observable through a continuation
             ch = inc.iloc[n - 1:n - 1 + m]
-            p = _pva(1, it.get_time())
+            p = _pva(1, it.get_time(), P.get('same'))
             it.set_pva(p)
             it.integrate(ch)
             fresh = ref_rows(p, ch)
@@ -553,9 +568,9 @@ def _replay(spec):
                 probe.integrate(inc.iloc[seg_from:used + 1])
                 if not _same(pr.values, probe.trajectory.values[-1]):
                     failed.append('predict differs from the row a single call would append')
-            elif o == 's':
+            elif o in ('s', 'r'):
                 npv += 1
-                p = _pva(npv, it.get_time())
+                p = _pva(npv, it.get_time(), 'rph' if o == 'r' else None)
                 it.set_pva(p)
                 seg_start, seg_from = p, used
             seg = ref_rows(seg_start, inc.iloc[seg_from:used])
